@@ -16,8 +16,15 @@ import (
 // a function of the relative order of four timestamps (and of the key/path
 // comparison): a finite set of orderings that is enumerated completely.
 func init() {
-	extend("C01", "comparator decision tables: blocks.Less (compaction merge order) is evaluated on every ordering of the two blocks' [min,max] ranges and key comparison — it may order block i before block j of the same key only if i's range ends before j's begins (overlapping blocks stay in file order for the stable sort); ascLocations/descLocations.Less order overlapping entries by file path only and disjoint ones by time in the cursor's direction.",
-		nil, func(p *core.Prog, r *core.Report, tier string) {
+	const note = "comparator decision tables: blocks.Less (compaction merge order) is evaluated on every ordering of the two blocks' [min,max] ranges and key comparison — it may order block i before block j of the same key only if i's range ends before j's begins (overlapping blocks stay in file order for the stable sort); ascLocations/descLocations.Less order overlapping entries by file path only and disjoint ones by time in the cursor's direction."
+	// C04 (compaction keeps the newest value of every timestamp) rests on the same comparator
+	extend("C04", note, nil, comparatorTables)
+	extend("C01", note, nil, comparatorTables)
+}
+
+func comparatorTables(p *core.Prog, r *core.Report, tier string) {
+	{
+		func() {
 			const rule = "comparator-table"
 			// ---- blocks.Less
 			if f := r.Need(p, tsm1, "blocks.Less"); f != nil {
@@ -150,5 +157,6 @@ func init() {
 					r.Check(rows >= 100, rule, f.String(), "rows:count", f.Pos(), fmt.Sprintf("%d orderings enumerated: overlapping entries ordered by file path, disjoint ones by %s", rows, spec.field))
 				}
 			}
-		})
+		}()
+	}
 }
